@@ -6,7 +6,9 @@
 (*    invs : Seq([set, h, argsId, tagsId, args, hasTags, tags])]           *)
 (* argsId / tagsId are the storage identities (address of the argument     *)
 (* array, address of the tag map) the invocation received, args/tags what  *)
-(* it saw on entry - before scribbling over everything.  The predicate is  *)
+(* it saw on entry - before scribbling over everything (elements, tags,   *)
+(* and an append); slots names every slot of the argument array's         *)
+(* capacity.  The predicate is  *)
 (* the storage rule of Dispatch.tla: identities pairwise distinct over all *)
 (* invocations of the three sets, content on entry = the parsed event.     *)
 (***************************************************************************)
@@ -25,6 +27,8 @@ OwnStorage(r) ==
   \A i, j \in 1..Len(r.invs) : i # j =>
      /\ (Len(r.args) > 0) => r.invs[i].argsId # r.invs[j].argsId
      /\ r.hasTags => r.invs[i].tagsId # r.invs[j].tagsId
+     \* not only the elements in use: the whole capacity of the argument array (what append may write to)
+     /\ SetOf(r.invs[i].slots) \cap SetOf(r.invs[j].slots) = {}
 
 C15OK(r) == /\ Len(r.invs) = r.expected          \* every registered handler of the three sets ran
             /\ \A i \in 1..Len(r.invs) : Equal(r, r.invs[i])
